@@ -1,5 +1,5 @@
 (* Properties/C07.v — Search quality: exact on small collections, high recall on large ones. *)
-From Verif Require Import Base.Prelude Store.Spec Store.Partition Hnsw.Model Hnsw.Inv Hnsw.Search Hnsw.Exact Hnsw.Cover Hnsw.Small Hnsw.Config Generated.Facts.
+From Verif Require Import Base.Prelude Store.Spec Store.Partition Hnsw.Model Hnsw.Inv Hnsw.Search Hnsw.Exact Hnsw.Cover Hnsw.Small Hnsw.Config Hnsw.Translated Generated.Translated Generated.Facts.
 From Coq Require Import Sorted.
 Open Scope N_scope.
 
@@ -21,6 +21,12 @@ Proof.
   intros opts H Hm. destruct (caps_follow_m opts H) as [E1 E2]. unfold cfg_of_raw. cbn [c_m c_mmax c_mmax0].
   change derive_last_now with true in *. rewrite E1, E2. split; [rewrite Z2Nat.inj_mul by lia; reflexivity|reflexivity].
 Qed.
+(* the level-0 beam width of Search as TRANSLATED from index/hnsw.go on this run (math.MaxInt / math.MinInt translated
+   from math/math.go, their loops included) is the model's beam width max(ef, min(k, Len)) for all Go ints *)
+Theorem C07_beam_width_translated : forall c s k,
+  (Z.of_nat (c_ef c) <= MaxIntVal)%Z -> (Z.of_nat k <= MaxIntVal)%Z -> (Z.of_N (hlen s) <= MaxIntVal)%Z ->
+  Z.of_nat (beam_width c s k) = go_Search_ef (Z.of_nat (c_ef c)) (Z.of_nat k) (Z.of_N (hlen s)).
+Proof. exact beam_width_is_translated. Qed.
 Theorem C07_derive_first_refuted :
   r_m (new_config false [OM 32]) = 32%Z /\ r_mmax0 (new_config false [OM 32]) = 32%Z /\ r_mmax0 (new_config true [OM 32]) = 64%Z.
 Proof. exact derive_first_refuted. Qed.
@@ -87,3 +93,4 @@ Qed.
 Print Assumptions C07_exact_partial.
 Print Assumptions C07_exact.
 Print Assumptions C07_caps_follow_m.
+Print Assumptions C07_beam_width_translated.
